@@ -52,3 +52,18 @@ Theorem c12_load_establishes_certificate : forall bs z, load_bytes bs = OK (Some
 Proof. exact load_establishes_certificate_lemma. Qed.
 Print Assumptions c12_load_establishes_certificate.
 
+
+From CCTZ Require Import SourcePosix SourceDecode SourceDecodeProofs.
+
+(* SOURCE-DERIVED byte decoders (SourceDecode.v, regenerated from clang's AST of Decode8/32/64 in
+   src/time_zone_info.cc on every run: shifts, ors, unsigned arithmetic modulo 2^64, checked conversions):
+   equal to the model's big-endian two's-complement decoders on every byte buffer *)
+Theorem src_decode32_tie : forall fuel buf cp, SourceDecodeProofs.bytes_ok buf -> 0 <= cp -> cp + 4 <= blen buf -> (5 <= fuel)%nat ->
+  sd_Decode32 fuel buf cp = OK (decode32 (firstn 4 (skipn (Z.to_nat cp) buf))).
+Proof. exact sd_Decode32_tie. Qed.
+Print Assumptions src_decode32_tie.
+
+Theorem src_decode64_tie : forall fuel buf cp, SourceDecodeProofs.bytes_ok buf -> 0 <= cp -> cp + 8 <= blen buf -> (9 <= fuel)%nat ->
+  sd_Decode64 fuel buf cp = OK (decode64 (firstn 8 (skipn (Z.to_nat cp) buf))).
+Proof. exact sd_Decode64_tie. Qed.
+Print Assumptions src_decode64_tie.
